@@ -28,6 +28,7 @@ const c10Prelude = "sl = (a, i, j) -> a[i:j]\n----\n" +
 	"lit = () -> [1, 2, 3]\n----\n" +
 	"konst = () -> \"hello\"\n----\n" +
 	"idv = (a) -> a\n----\n" +
+	"nothing = () -> if false 1\n----\n" +
 	"litc = (k) -> [1, k, 3]\n----\n" +
 	"litd = (k) -> [1, 2, 3, k, [5, 6, k]]\n----\n" +
 	"lits = (n) -> if n <= 0 {\n[]\n} else [[n, 0]] + lits(n - 1)\n----\n" +
@@ -85,7 +86,7 @@ func c10Session(t *rapid.T) (stmts []string, probes []string, nontrivial bool) {
 			if str {
 				return rapid.SampledFrom([]string{`"ab"`, `""`, `"xyz"`, `"q"`}).Draw(t, "slit")
 			}
-			return rapid.SampledFrom([]string{"[1, 2, 3]", "[]", "[4]", "[[5], 6]", "lit()"}).Draw(t, "alit")
+			return rapid.SampledFrom([]string{"[1, 2, 3]", "[]", "[4]", "[[5], 6]", "lit()", "[1, nothing(), 3]", "[nothing()]", "[7, 8, nothing()]"}).Draw(t, "alit")
 		}
 		n := lenOf(v.name)
 		switch rapid.IntRange(0, 5).Draw(t, "form") {
@@ -158,6 +159,9 @@ func c10Session(t *rapid.T) (stmts []string, probes []string, nontrivial bool) {
 				break
 			}
 			emit(fmt.Sprintf("%s = %s + %s", x, operand(str), operand(str)))
+		case op == 2 && !isNew && !str && rapid.Bool().Draw(t, "accumulate"):
+			// the accumulate pattern on a variable that may share storage with others
+			emit(fmt.Sprintf("%s = %s + [%s]", x, x, rapid.SampledFrom([]string{"50", "nothing()", "[9]", "\"s\""}).Draw(t, "elem")))
 		case op == 2:
 			emit(fmt.Sprintf("%s = cat(%s, %s)", x, operand(str), operand(str)))
 		case op == 3:
